@@ -960,22 +960,38 @@ impl Model {
     ) -> Result<(), String> {
         let what = format!("extract({kind:?}, checked={checked}, {by:?}, dest={dest:?})");
         let mut pre = match dest {
-            Dest::Absent | Dest::OtherFs | Dest::LongName | Dest::WithSiblings | Dest::LinkOfContent => DestState::Absent,
-            Dest::Existing => DestState::File(PREEXISTING.len() as u64, sha256_hex(PREEXISTING)),
+            Dest::Absent | Dest::OtherFs | Dest::LongName | Dest::WithSiblings | Dest::LinkOfContent | Dest::SymlinkToContent => DestState::Absent,
+            Dest::Existing | Dest::ExistingSuperset => DestState::File(PREEXISTING.len() as u64, sha256_hex(PREEXISTING)),
+            Dest::Directory => DestState::Other,
         };
+        if dest == Dest::Directory {
+            // nothing can be extracted onto a directory: an error (whichever), and the directory stays
+            // (and stays empty: checked by the interpreter, which reports anything else as `Other` too)
+            return match out {
+                Out::ExtractErr { dest: DestState::Other, .. } => Ok(()),
+                o => Err(format!("{what}: the destination is a directory: expected an error and the directory as it was, got {}", o.short())),
+            };
+        }
         // a destination that is a hard link of the content file held the content's bytes
         let mut dest = dest;
-        if dest == Dest::LinkOfContent {
+        if dest == Dest::LinkOfContent || dest == Dest::SymlinkToContent || dest == Dest::ExistingSuperset {
             let a = match by {
                 By::Key(k) => self.entry(ctx.key(k)).and_then(|e| blob::sri_address(&e.integrity)),
                 By::Addr(a) => Some(Self::addr_of(ctx, a)),
             };
             match a.and_then(|a| self.content.get(&a)) {
                 Some(CState::Data { bytes, symlink: false }) => {
-                    pre = DestState::File(bytes.len() as u64, sha256_hex(bytes));
+                    if dest == Dest::ExistingSuperset {
+                        let mut b = bytes.to_vec();
+                        b.extend_from_slice(crate::exec::SUPERSET_TAIL);
+                        pre = DestState::File(b.len() as u64, sha256_hex(&b));
+                    } else {
+                        pre = DestState::File(bytes.len() as u64, sha256_hex(bytes));
+                    }
                     // for what is expected, it is an existing destination
                     dest = Dest::Existing;
                 }
+                _ if dest == Dest::ExistingSuperset => dest = Dest::Existing,
                 _ => dest = Dest::Absent,
             }
         }
